@@ -25,7 +25,7 @@ pub fn run(case: &Sexp) -> Result<Sexp, String> {
         None => vec![],
     };
     let checked = matches!(a.get(2).and_then(|m| m.head()), Some("checked"));
-    let text = match String::from_utf8(text) { Ok(t) => t, Err(_) => return Ok(Sexp::app("R", vec![Sexp::atom("NotUtf8"), Sexp::list(vec![])])) };
+    let text = match String::from_utf8(text) { Ok(t) => t, Err(_) => return Ok(Sexp::app("R", vec![Sexp::atom("NotUtf8"), Sexp::atom("NotUtf8"), Sexp::list(vec![])])) };
 
     // 1. direct: parse_program, then Lower (gives the error class)
     let mut program = None;
